@@ -544,7 +544,7 @@ def case_of_result(kind, alg, cc):
 # --- default values as regenerated obligations (Generated/Defaults.lean <- harness/translate_defaults.py; stream defaults[...])
 import defaults_stream  # noqa: E402
 from common import all_pre_build as pre_build  # noqa: E402,F401,F811  (runs EVERY translate_*.py)
-LEAN_MODULES += ["PyomaVerif.Props.WiringDefaultsC11"]
+LEAN_MODULES += ["PyomaVerif.Props.WiringDefaultsC11", "PyomaVerif.Props.WiringDefaultsLab"]
 THEOREMS += ["PV.WiringDefaults.C11_defaults_ssi", "PV.WiringDefaults.C11_defaults_plscf", "PV.WiringDefaults.C11_label_literals", "PV.WiringDefaults.C11_label_literals_model", "PV.WiringDefaults.C11_label_literals_model_ssi"]
 
 
